@@ -213,7 +213,7 @@ def run_case(case, drv):
                 ig_ = fst_.intersection(g)
                 kept["ig"] = ig_
                 return ig_.is_empty()
-            got = outcome(run_i, limit=8.0)
+            got = outcome(run_i, limit=8.0, retry=False)
             # structural tie with the triple-construction model (Pfl/Model/IndexedInter.lean): same transducer,
             # same rules after remove_useless_rules, same verdict
             if got[0] == "ok" and "ig" in kept and len(kept["fst"].states) <= 4:
@@ -222,7 +222,7 @@ def run_case(case, drv):
                       "finals": [repr(q) for q in fst_.final_states],
                       "delta": [[repr(k[0]), (None if k[1] == "epsilon" else k[1]), repr(t[0]), list(t[1])]
                                 for k, ts in fst_._delta.items() for t in ts]}  # pylint: disable=protected-access
-                st_m, mi = outcome(lambda: drv.call("ig.inter", _timeout=8.0, rules=rules, start="S", T=tj), limit=10.0)
+                st_m, mi = outcome(lambda: drv.call("ig.inter", _timeout=8.0, rules=rules, start="S", T=tj), limit=10.0, retry=False)
                 if st_m == "ok":
                     res.corr += 1
                     # the output word of an end rule is irrelevant for emptiness and printed differently
